@@ -34,7 +34,7 @@ from sim.runner import Outcome
 ID = "C11"
 LEVEL = "exploration"
 ISOLATE = True
-RUN_WALL_S = 60
+RUN_WALL_S = 150
 TIERS = {
     "quick": {"cases": 6_000, "episode": 1, "selftest": 48, "wall_cap_s": 900, "shrink_s": 90},
     "thorough": {"cases": 1_000_000, "episode": 1, "selftest": 512, "wall_cap_s": 4 * 3600, "shrink_s": 180},
